@@ -333,3 +333,10 @@ def run(prog: Program, ctx: Ctx) -> None:  # noqa: PLR0912,PLR0915
         ctx.ob("R6", f"fresh|{view}", first == [] and second == want,
                f"Child({'b.Base'}).{view}: {first} before the base's package is loaded, {second} after (expected {want})", where(prog.lookup_method(ccls, view)[0]))
     it.class_stubs.pop(f"{M}.Alias", None)
+
+    # ------------------------------------------------------------------ R7 hierarchies loaded by runtime inspection record the same bases
+    # (the MRO and the inherited members of an inspected class are computed from the bases the inspector records)
+    from sa.rules.C17 import inspect_class_bases_table
+
+    inspect_class_bases_table(prog, ctx, "R7")
+
